@@ -16,7 +16,7 @@ func init() {
 			"the consumer returns nil only for an empty queue, waits for reserved-but-unpublished slots, clears a slot before advancing, follows the jump marker; every slot access is atomic; the cache pops only under the eviction lock and never drops a task it could not push. "+
 			"NOT decided: exactly-once / per-producer FIFO delivery over all interleavings.",
 		[]string{"sync/atomic operations are sequentially consistent (Go memory model)", "there is a single consumer (decided separately by C16.single)"},
-		ruleC16Reserve, ruleC16Full, ruleC16Cap, ruleC16Resize, ruleC16Pop, ruleC16Atomic, ruleC16Single, ruleC14After, ruleC16Init, ruleC16Order, ruleC16Consume, ruleC16InvalidateOrder, ruleC16Geometry)
+		ruleC16Reserve, ruleC16Full, ruleC16Cap, ruleC16Resize, ruleC16Pop, ruleC16Atomic, ruleC16Single, ruleC14After, ruleC16Init, ruleC16Order, ruleC16Consume, ruleC16InvalidateOrder, ruleC16Geometry, ruleXMath)
 }
 
 const queuePkg = "internal/deque/queue"
